@@ -153,8 +153,11 @@ func (b *BinaryExpression) SQL() string {
 
 	prec := binaryOperatorPrecedence(upperOp)
 	leftMin, rightMin := prec, prec+1 // left-associative
-	if prec == precComparison {
+	switch prec {
+	case precComparison:
 		leftMin = prec + 1 // comparisons do not chain
+	case precJSON:
+		rightMin = precPrimary // the right operand of a JSON operator is a primary expression
 	}
 	left := operandSQL(b.Left, leftMin)
 
@@ -497,7 +500,7 @@ func (a *ArraySubscriptExpression) SQL() string {
 	if a == nil {
 		return ""
 	}
-	s := operandSQL(a.Array, precPrimary)
+	s := subscriptBaseSQL(a.Array)
 	for _, idx := range a.Indices {
 		s += "[" + exprSQL(idx) + "]"
 	}
@@ -516,7 +519,18 @@ func (a *ArraySliceExpression) SQL() string {
 	if a.End != nil {
 		end = exprSQL(a.End)
 	}
-	return fmt.Sprintf("%s[%s:%s]", operandSQL(a.Array, precPrimary), start, end)
+	return fmt.Sprintf("%s[%s:%s]", subscriptBaseSQL(a.Array), start, end)
+}
+
+// subscriptBaseSQL writes the expression a subscript or slice applies to. Only a
+// name or another subscript can be followed by "[" directly; anything else
+// (CAST(...), a function call, an operator expression) is parenthesised.
+func subscriptBaseSQL(e Expression) string {
+	switch e.(type) {
+	case *Identifier, *ArraySubscriptExpression, *ArraySliceExpression:
+		return exprSQL(e)
+	}
+	return "(" + exprSQL(e) + ")"
 }
 
 // GROUP BY advanced expressions
@@ -1295,7 +1309,12 @@ func joinSQL(j *JoinClause) string {
 	sb.WriteString(j.Type)
 	sb.WriteString(" JOIN ")
 	sb.WriteString(tableRefSQL(&j.Right))
-	if j.Condition != nil {
+	if list, ok := j.Condition.(*ListExpression); ok && list != nil {
+		// a multi-column USING (a, b) is stored as a ListExpression
+		sb.WriteString(" USING (")
+		sb.WriteString(exprSQL(list))
+		sb.WriteString(")")
+	} else if j.Condition != nil {
 		sb.WriteString(" ON ")
 		sb.WriteString(exprSQL(j.Condition))
 	}
